@@ -938,6 +938,39 @@ int main(int argc, char **argv)
         }
     }
 
+    // ---- subsD: substitution into first-level Derivative objects.  This creates Subs nodes whose *bound* variable is
+    //      x or y themselves (diff only ever binds fresh _xi_N dummies), so diff by a variable that is bound in the
+    //      state -- and free only in the substituted point -- is exercised (added after seeded change C10 escaped).
+    if (!past_deadline()) {
+        int ns0 = BD.SS.size();
+        std::vector<int> d1;
+        for (int i = nd0; i < ns0; i++)
+            if (BD.SS.S[i].depth <= 2 && contains_type(*BD.SS.S[i].e, DERIVSUBS))
+                d1.push_back(i);
+        const int un0 = BD.un.size();
+        auto addsub = [&](const std::string &name, const RCP<const Basic> &from, const RCP<const Basic> &to) {
+            BD.un.push_back({"subs[" + name + "]", [from, to](const B &a) -> B {
+                                 map_basic_basic m;
+                                 m[from] = to;
+                                 return a->subs(m);
+                             }});
+        };
+        addsub("x->x^2", x, pow(x, integer(2)));
+        addsub("x->y", x, y);
+        addsub("x->2x+1", x, add(mul(integer(2), x), one));
+        addsub("y->x", y, x);
+        addsub("x->x*y", x, mul(x, y));
+        std::vector<Trans> t4;
+        for (int a : d1)
+            for (int op = un0; op < (int)BD.un.size(); op++)
+                t4.push_back({0, op, a, a});
+        BD.layer("subsD", t4, 3);
+        int ns1 = BD.SS.size();
+        R.counters["states_subs(D1)(Subs binding x or y)"] = ns1 - ns0;
+        run_states("diff:subs(D1)", ns0, ns1);
+        bound += ", substitution of x/y into first-level D objects (" + std::to_string(ns1 - ns0) + " states with Subs binding x or y)";
+    }
+
     // ---- Piecewise states: (a, x<1), (b, True)
     if (!past_deadline()) {
         int np0 = BD.SS.size();
